@@ -2,6 +2,7 @@
 import hll_rules as H
 import chains
 import generic_lints
+import hazard_lints
 import predicates
 import triggers
 
@@ -21,6 +22,7 @@ def run(facts, tier):
         ("emptiness predicate support", lambda fa: predicates.obligations(fa, ['HllArray','CouponList','hll_sketch_alloc']), 5, "the emptiness predicate still consults every field it depended on in the reviewed tree (spec/predicates.json)"),
         ("coupon identity", H.coupon_identity, 2, "LIST and SET agree on what an already-present coupon is: the whole stored element equals the whole new coupon"),
         ("tautologies", lambda fa: generic_lints.tautologies(fa, ('hll/',)), 2, "no comparison / assignment / min-max with two identical operands, no if-else with identical arms"),
+        ("hazards", lambda fa: hazard_lints.hazards(fa, ('hll/',)), 2, "no 64-bit value silently narrowed at a call of a library function, no numeric_limits<floating>::min() as a lowest value, no random engine constructed inside a loop, no read of a moved-from parameter, no unguarded unsigned `x - c` loop bound (reviewed instances in spec/hazards.json)"),
         ("duplicate operands", lambda fa: generic_lints.duplicate_conjuncts(fa, ('hll/',)), 2, "no logical chain tests the same operand twice (copy-paste of the wrong peer)"),
         ("release guards", lambda fa: generic_lints.conditional_release_before_overwrite(fa, ('hll/',)), 1, "an owning pointer field that is overwritten had its old object released unconditionally or under the existence test of that very object (any other guard leaks it on the other paths)"),
         ("invalidated pointers", lambda fa: generic_lints.invalidated_pointers(fa, ('hll/',)), 1, "no pointer / iterator obtained from begin() / end() / data() of an object is used after a call on that object that can move its storage (ensure_space, grow, resize ...)"),
